@@ -62,9 +62,21 @@ def intFloor (x : Rat) : Int := x.floor
 modelled and are an error here, as is a value beyond the end (IndexError) -/
 def idxInt (xs : List β) (i : Int) : Option β := if i < 0 then none else xs[i.toNat]?
 
+/-- the restart loop `while True: new_k = int(floor(random.random() * N)); if new_k != k: break`
+followed by `k = new_k`, with `fuel` rounds at most (`none` = the fuel ran out: an endless loop) -/
+def restartK (A : WalkArith) (N : Int) (u : Nat → Rat) (k : Int) : Nat → Nat → Option (Int × Nat)
+  | 0, _ => none
+  | f + 1, c =>
+    let nk := intFloor (A.restart (u c) N)
+    if A.accept nk k then some (A.newK nk, c + 1) else restartK A N u k f (c + 1)
+
+/-- rounds of the restart loop the model is prepared to run (one suffices for draws in [0,1):
+`walk_kernel_step_is_next`) -/
+def restartFuel : Nat := 64
+
 /-- the body of `while j < N` after the assignment, in the kernel's `int k`: the next `k` and the
-advanced stream cursor (`u` = the `random.random()` stream).  `none` = IndexError, or a second
-round of the restart loop `while True` (never needed: `walk_kernel_is_walk`, `walk_step`). -/
+advanced stream cursor (`u` = the `random.random()` stream).  `none` = IndexError, or the restart
+loop did not end within `restartFuel` rounds. -/
 def nextK (A : WalkArith) (N : Int) (tw : List (List Nat)) (u : Nat → Rat) (k : Int) (c : Nat) :
     Option (Int × Nat) :=
   match idxInt tw (A.twIdx k) with
@@ -82,9 +94,7 @@ def nextK (A : WalkArith) (N : Int) (tw : List (List Nat)) (u : Nat → Rat) (k 
     match kc with
     | none => none
     | some (k', c') =>
-      if A.atEnd k' N then
-        let nk := intFloor (A.restart (u c') N)
-        if A.accept nk k' then some (A.newK nk, c' + 1) else none
+      if A.atEnd k' N then restartK A N u k' restartFuel c'
       else some (k', c')
 
 /-- `while j < N` with `fuel` passes at most (`none` when the fuel runs out with the test still
